@@ -44,6 +44,8 @@ def plan(tier, seed):
     pairs = [(k, a, b) for k, ops in (("gen", GEN_OPS), ("pub", PUB_OPS)) for a in ops for b in ops]
     # a generator-type point that is ALSO unscaled (z != 1; direct construction): table construction and in-place rescaling on one object
     pairs += [("genz", a, b) for a in ("mulk", "scale", "to_affine") for b in ("mulk", "scale", "to_affine", "mul_add_other")]
+    # two DIFFERENT unscaled points that share nothing but their curve object
+    pairs += [("curve", a, b) for a in ("xy", "scale", "to_affine", "mulk") for b in ("xy", "scale", "to_affine")]
     for ci, cname in enumerate(curves):
         for pi in range(0, len(pairs), 3):
             jobs.append({"name": "pt_%s_%02d" % (cname, pi), "spec": {"kind": "points", "curve": cname, "pairs": pairs[pi : pi + 3], "step": (8 if q else 1) * (1 if ci < 1 else 2)}})
@@ -63,7 +65,7 @@ def plan(tier, seed):
 
 
 def mandatory_bins(tier):
-    b = ["points_trial", "preempt_in:_maybe_precompute", "preempt_in:scale", "shared_generator_fresh_table", "shared_public_point_unscaled", "shared_generator_type_point_unscaled", "op_a:" + "mulk", "op_b:verifies", "op_b:pickle",
+    b = ["points_trial", "preempt_in:_maybe_precompute", "preempt_in:scale", "shared_generator_fresh_table", "shared_public_point_unscaled", "shared_generator_type_point_unscaled", "two_unscaled_points_sharing_only_their_curve_object", "op_a:" + "mulk", "op_b:verifies", "op_b:pickle",
          "lock_cfg:1R+1W", "lock_cfg:2R", "lock_cfg:2R+1W", "lock_cfg:1R+2W", "lock_cfg:1R+1W x2", "lock_complete_exploration", "two_readers_hold_together", "lock_random_line_schedules", "uncontrolled_stress", "edwards_generator_first_use_by_concurrent_threads"]
     if tier != "quick":
         b += ["lock_cfg:2R+2W", "lock_cfg:3R+1W"]
@@ -119,6 +121,12 @@ def run_points(ns, ctx, spec):
             return None
         return (int(P.x()) % p, int(P.y()) % p)
 
+    Q2 = base * (d ^ 0x55)
+    Q2X, Q2Y, Q2Z = [int(v) for v in Q2._PointJacobi__coords]
+
+    def mk_other():
+        return PJ(curve, Q2X, Q2Y, Q2Z, n)
+
     def mk(kind):
         if kind == "gen":
             return PJ(curve, gx, gy, 1, n, generator=True)
@@ -150,14 +158,20 @@ def run_points(ns, ctx, spec):
         raise ValueError(name)
 
     codes = [getattr(PJ, f).__code__ for f in ("_maybe_precompute", "scale", "__mul__", "mul_add", "to_affine", "_mul_precompute", "__eq__", "x", "y")]
+    # ... and whatever the curve class itself defines (state kept on the shared curve object)
+    from ..sched import yieldrun
+
+    curve_codes = [c for c in yieldrun.code_objects_of(type(curve)) if c not in codes]
+    codes += curve_codes
+    curve_funcs = {c.co_name for c in curve_codes}
     pre = Preempter(codes)
     points_seen = set()
     try:
         for kind, an, bn in spec["pairs"]:
             fa, fb = op(an, kind), op(bn, kind)
             want_a = fa(mk(kind))
-            want_b = fb(mk(kind))
-            ctx.bin({"gen": "shared_generator_fresh_table", "pub": "shared_public_point_unscaled", "genz": "shared_generator_type_point_unscaled"}[kind])
+            want_b = fb(mk(kind)) if kind != "curve" else fb(mk_other())
+            ctx.bin({"gen": "shared_generator_fresh_table", "pub": "shared_public_point_unscaled", "genz": "shared_generator_type_point_unscaled", "curve": "two_unscaled_points_sharing_only_their_curve_object"}[kind])
             ctx.bin("op_a:" + an)
             ctx.bin("op_b:" + bn)
             # how many LINE events does A produce?
@@ -178,10 +192,11 @@ def run_points(ns, ctx, spec):
             pre.mon.register_callback(4, pre.mon.events.LINE, probe)
             pre.run(lambda: fa(S), None, None)
             pre.mon.register_callback(4, pre.mon.events.LINE, orig)
-            ks = sorted({i for i in range(0, N, step)} | {i for i, f in enumerate(order) if f == "scale" and (kind in ("pub", "genz") or step == 1)} | {i for i, f in enumerate(order) if kind == "genz" and f in ("__mul__", "_mul_precompute") and i % 3 == 0} | {i for i, f in enumerate(order) if f == "_maybe_precompute" and (step == 1 or i % (step // 2 + 1) == 0)})
+            ks = sorted({i for i in range(0, N, step)} | {i for i, f in enumerate(order) if kind == "curve" and (f in ("x", "y", "scale", "to_affine") or f in curve_funcs)} | {i for i, f in enumerate(order) if f == "scale" and (kind in ("pub", "genz") or step == 1)} | {i for i, f in enumerate(order) if kind == "genz" and f in ("__mul__", "_mul_precompute") and i % 3 == 0} | {i for i, f in enumerate(order) if f == "_maybe_precompute" and (step == 1 or i % (step // 2 + 1) == 0)})
             for k in ks:
                 S = mk(kind)
-                ra, rb, where, cnt = pre.run(lambda: fa(S), lambda: fb(S), k)
+                S2 = S if kind != "curve" else mk_other()
+                ra, rb, where, cnt = pre.run(lambda: fa(S), lambda: fb(S2), k)
                 ctx.ev()
                 ctx.bin("points_trial")
                 rp = {"kind": "points", "curve": cv.name, "shared": kind, "op_a": an, "op_b": bn, "k": k}
@@ -198,6 +213,8 @@ def run_points(ns, ctx, spec):
                 try:
                     after = aff(S * 1) if kind != "gen" else aff(S * k3)
                     want_after = (aff(mk(kind) * 1) if kind != "gen" else aff(mk(kind) * k3))
+                    if kind == "curve" and aff(S2 * 1) != aff(mk_other() * 1):
+                        after = None
                     if after != want_after:
                         ctx.violation("shared_object_damaged_after_concurrent_use:" + kind, {"parked_in": where, "op_a": an, "op_b": bn}, rp)
                 except Exception as e:
